@@ -442,6 +442,40 @@ def finish(env, module):
     return 0
 
 
+def run_miri(env, name, case_text, target=None, sched="seq", seed=0, timeout=5400):
+    """Interprets the driver under Miri, optionally for another target triple (32-bit, big-endian).
+    Returns (sessions, note); sessions is None when Miri could not run (never a verdict)."""
+    import subprocess as sp
+    cdir = os.path.join(VERIF, "harness")
+    prepare_crate(cdir)
+    case = os.path.join(env.work, "%s.miri.case" % name)
+    ev = os.path.join(env.work, "%s.miri.ev" % name)
+    with open(case, "w") as fh:
+        fh.write(case_text)
+    if os.path.exists(ev):
+        os.remove(ev)
+    e = dict(BASE_ENV)
+    e["RUSTFLAGS"] = "--cfg %s" % GUARD
+    e["MIRIFLAGS"] = "-Zmiri-disable-isolation -Zmiri-seed=%d" % seed
+    e["XDG_CACHE_HOME"] = os.path.join(VERIF, "target", "miri-cache")
+    cmd = ["cargo", "+nightly", "miri", "run", "--offline", "--target-dir", os.path.join(VERIF, "target", "miri")]
+    if target:
+        cmd += ["--target", target]
+    cmd += ["--", "run", case, ev, "--sched", sched]
+    try:
+        p = sp.run(cmd, cwd=cdir, env=e, stdout=sp.PIPE, stderr=sp.PIPE, timeout=timeout)
+    except sp.TimeoutExpired:
+        return None, "watchdog"
+    err = p.stderr.decode("utf-8", "replace")
+    if "Undefined Behavior" in err or "Data race detected" in err:
+        env.violation("%s:miri:%s" % (env.prop, target or "host"), "Miri (%s) reported undefined behaviour / a data race:\n%s" % (target or "host", err[-2500:]), workload=name)
+        return None, "report"
+    if p.returncode != 0 or not os.path.exists(ev):
+        return None, "failed to run (rc %s): %s" % (p.returncode, err[-300:])
+    sessions, problems = cl.parse_events(ev)
+    return sessions, "ok"
+
+
 def generic_replay(env, module, path, build="checked"):
     """Re-drives the case text of a replay file and re-runs the monitor of its workload."""
     with open(path) as fh:
